@@ -2,7 +2,7 @@
 # seed_collect.sh <PROP> <slug> : verify a sub-agent's change in its scratch worktree /tmp/wt/<PROP> and store it
 # under /verif/seeded/<PROP>-<slug>/ (patch.diff, demo, suite result).  Nothing here touches /repo.
 set -u
-P=$1; SLUG=$2; WT=/tmp/wt/$P; OUT=/verif/seeded/$P-$SLUG
+P=$1; SLUG=$2; WT=${WTROOT:-/tmp/wt}/$P; OUT=/verif/seeded/$P-$SLUG
 mkdir -p $OUT
 git -C $WT diff > $OUT/patch.diff
 cp $WT/demo_$P.py $OUT/demo.py
